@@ -8,6 +8,7 @@ Level: exploration (model-generated shape classes, not all byte strings)."""
 import concurrent.futures
 import json
 import os
+import time
 import vlib
 
 PID = "C07"
@@ -238,7 +239,9 @@ def run(tier):
         else:
             stats["sequences"] = stats.get("sequences", 0) + len(case_rows)
         before = stats["executed"] + stats["by_res"].get("inapplicable", 0)
+        t_pass = time.time()
         rows = execute(ck, label, grammar, cases, nshards, VARIANTS[tier])
+        vlib.log(f"  pass {label}: {len(case_rows)} cases replayed in {time.time() - t_pass:.1f} s (TLC {res['wall_s']} s)")
         classify(ck, rows, case_rows, stats)
         if sim is None:
             bfs_done = stats["executed"] + stats["by_res"].get("inapplicable", 0) + stats["by_res"].get("unreachable", 0)
